@@ -211,7 +211,7 @@ TReset ==
 
 (* any call that panicked with something else than ErrNaN: "no operation on valid arguments panics with anything else" *)
 TPanic ==
-  /\ l <= Len(T) /\ Ev.out = "panic" /\ Ev.op # "Ctx.AddNilY"
+  /\ l <= Len(T) /\ Ev.out = "panic" /\ Ev.op \notin {"Ctx.AddNilY", "N.mul", "N.sqr", "N.div", "K", "K.tables"}     \* (those actions judge their own panics)
   /\ l' = l + 1
   /\ vres' = vres
   /\ ctxs' = ctxs /\ pool' = pool
@@ -601,6 +601,12 @@ CtxObsOK(c) == Ev.ret.cprec = c.prec /\ Ev.ret.cmode = c.mode      \* the contex
 (* the register the operation writes, rewritten: operands that ARE the receiver see the applied receiver *)
 CtxArg(r, zA) == IF r = Ev.z THEN zA ELSE Pre(r)
 
+(* the property that owns the same operation outside a context: a wrong value through the wrapper contradicts it too *)
+CtxHome == CASE Ev.op \in {"Ctx.Add", "Ctx.Sub", "Ctx.Mul", "Ctx.Quo", "Ctx.Set", "Ctx.Neg", "Ctx.Abs"} -> {"C01"}
+             [] Ev.op = "Ctx.FMA" -> {"C03"}
+             [] Ev.op = "Ctx.Sqrt" -> {"C05"}
+             [] OTHER -> {}
+
 (* a context operation with receiver Ev.z; mk(zA) is the Decimal-level outcome on the applied receiver zA *)
 CtxStep(w, aliased, tag) ==
   LET c == Ctx
@@ -617,7 +623,7 @@ CtxStep(w, aliased, tag) ==
              /\ ctxs' = ctxs /\ pool' = pool
              /\ cov' = Bump({Ev.op, Ev.op \o ":latched"})
         ELSE \* a NaN is caught (the call returns normally) and latched; value free when the receiver is an operand (documented caveat)
-             LET w1 == IF aliased THEN [w EXCEPT !.free = w.free \cup {"value", "acc"}] ELSE [w EXCEPT !.pid = {"C19"}]
+             LET w1 == IF aliased THEN [w EXCEPT !.free = w.free \cup {"value", "acc"}] ELSE [w EXCEPT !.pid = {"C19"} \cup CtxHome]
                  got == IF Ev.out = "ok" /\ w.out = "nan" THEN [w1 EXCEPT !.out = "ok", !.free = {"value", "acc"}] ELSE w1
              IN /\ bad' = bad \cup Tag({<<t[1], IF t[2] \in {"C09", "C10"} THEN "C19" ELSE t[2], t[3]>> : t \in MisZ(got)} \cup (IF Ev.out = "ok" /\ Ev.ret.same /\ CtxObsOK(c) THEN {} ELSE {<<l, "C19", "ret">>})
                                        \cup Common({Ev.z}), "")
